@@ -1,1 +1,532 @@
-use crate::Ctx; pub fn run(_cx: &mut Ctx) {}
+//! Domain LF: RFC 6690 link-format parser and writer – C16, C17, C18.
+//!   LF parse <hex>                       -> items: L<off>:<hex>[A<k>=<v>~<unq>~<cow>~<q>,...] ; E
+//!   LF cow <hex>                         -> <to_string hex> <to_cow hex> <is_quoted>
+//!   LF write <nl> <doc>                  -> <ok|err> <calls> <sink hex>
+//!   LF writef <nl> <k> <once|persist> <doc> -> same
+//!   LF rt <nl> <doc>                     -> write, then parse the output (same format as parse)
+//! <doc> = links joined by '|'; link = <targethex>(;<m>:<keyhex>:<val>)*, m = a|q (val hex) or u|h (val decimal); `_` = no links
+use crate::{guarded, hex, unhex, Ctx, Rng};
+use coap_lite::link_format::{LinkFormatParser, LinkFormatWrite, Unquote};
+use std::fmt::Write;
+
+#[derive(Clone, Debug)]
+pub enum AttrSpec {
+    Plain(String, String),
+    Quoted(String, String),
+    U32(String, u32),
+    U16(String, u16),
+}
+
+pub type Doc = Vec<(String, Vec<AttrSpec>)>;
+
+fn doc_token(d: &Doc) -> String {
+    if d.is_empty() {
+        return "_".into();
+    }
+    d.iter()
+        .map(|(t, attrs)| {
+            let mut s = hex(t.as_bytes());
+            for a in attrs {
+                s.push(';');
+                s.push_str(&match a {
+                    AttrSpec::Plain(k, v) => format!("a:{}:{}", hex(k.as_bytes()), hex(v.as_bytes())),
+                    AttrSpec::Quoted(k, v) => format!("q:{}:{}", hex(k.as_bytes()), hex(v.as_bytes())),
+                    AttrSpec::U32(k, n) => format!("u:{}:{}", hex(k.as_bytes()), n),
+                    AttrSpec::U16(k, n) => format!("h:{}:{}", hex(k.as_bytes()), n),
+                });
+            }
+            s
+        })
+        .collect::<Vec<_>>()
+        .join("|")
+}
+
+/// sink that logs every call and fails according to a schedule
+struct FaultSink {
+    buf: String,
+    calls: usize,
+    fail_at: Option<usize>,
+    persist: bool,
+    wrote_after_failure: bool,
+    failed: bool,
+}
+
+impl FaultSink {
+    fn new(fail_at: Option<usize>, persist: bool) -> Self {
+        FaultSink { buf: String::new(), calls: 0, fail_at, persist, wrote_after_failure: false, failed: false }
+    }
+    fn call(&mut self, s: &str) -> std::fmt::Result {
+        let k = self.calls;
+        self.calls += 1;
+        let fail = match self.fail_at {
+            Some(f) => k == f || (self.persist && k > f),
+            None => false,
+        };
+        if fail {
+            self.failed = true;
+            Err(std::fmt::Error)
+        } else {
+            if self.failed {
+                self.wrote_after_failure = true;
+            }
+            self.buf.push_str(s);
+            Ok(())
+        }
+    }
+}
+
+impl Write for FaultSink {
+    fn write_str(&mut self, s: &str) -> std::fmt::Result {
+        self.call(s)
+    }
+    fn write_char(&mut self, c: char) -> std::fmt::Result {
+        let mut b = [0u8; 4];
+        self.call(c.encode_utf8(&mut b))
+    }
+}
+
+fn write_doc(d: &Doc, nl: bool, sink: &mut FaultSink) -> bool {
+    let mut w = LinkFormatWrite::new(sink);
+    w.set_add_newlines(nl);
+    let mut inner_ok = true;
+    for (t, attrs) in d {
+        let mut aw = w.link(t);
+        for a in attrs {
+            aw = match a {
+                AttrSpec::Plain(k, v) => aw.attr(k, v),
+                AttrSpec::Quoted(k, v) => aw.attr_quoted(k, v),
+                AttrSpec::U32(k, n) => aw.attr_u32(k, *n),
+                AttrSpec::U16(k, n) => aw.attr_u16(k, *n),
+            };
+        }
+        inner_ok = aw.finish().is_ok();
+    }
+    let fin = w.finish().is_ok();
+    // the per-link finish and the final finish report the same latched error
+    fin && (d.is_empty() || inner_ok)
+}
+
+fn off(input: &str, s: &str) -> String {
+    if s.is_empty() {
+        "-".to_string()
+    } else {
+        (s.as_ptr() as usize - input.as_ptr() as usize).to_string()
+    }
+}
+
+struct ParsedLink {
+    target: String,
+    attrs: Vec<(String, String)>, // key, unquoted value
+}
+
+/// run all three iterators over `input`; returns printable result + structured content; None on panic
+fn parse_all(cx: &mut Ctx, line: &str, input: &str, oracle: bool) -> Option<(String, Vec<ParsedLink>, bool)> {
+    let r = guarded(|| {
+        let mut out: Vec<String> = vec![];
+        let mut links: Vec<ParsedLink> = vec![];
+        let mut problems: Vec<String> = vec![];
+        let mut saw_err = false;
+        let mut last_off: usize = 0;
+        let base = input.as_ptr() as usize;
+        let end = base + input.len();
+        let mut check = |s: &str, what: &str, problems: &mut Vec<String>, last_off: &mut usize| {
+            if s.is_empty() {
+                return;
+            }
+            let p = s.as_ptr() as usize;
+            if p < base || p + s.len() > end {
+                problems.push(format!("{} is not a substring of the input", what));
+            } else {
+                if p - base < *last_off {
+                    problems.push(format!("{} at offset {} comes before an earlier item at {}", what, p - base, *last_off));
+                }
+                *last_off = p - base;
+            }
+        };
+        for item in LinkFormatParser::new(input) {
+            if saw_err {
+                problems.push("an item was yielded after an error".into());
+            }
+            match item {
+                Err(_) => {
+                    out.push("E".into());
+                    saw_err = true;
+                }
+                Ok((target, attrs)) => {
+                    check(target, "link target", &mut problems, &mut last_off);
+                    let mut a_out = vec![];
+                    let mut pl = ParsedLink { target: target.to_string(), attrs: vec![] };
+                    for (k, v) in attrs {
+                        check(k, "attribute key", &mut problems, &mut last_off);
+                        let raw = v.clone().into_raw_str();
+                        check(raw, "attribute value", &mut problems, &mut last_off);
+                        let unq: String = v.clone().collect();
+                        let disp = v.to_string();
+                        let cow = v.to_cow();
+                        if unq != disp {
+                            problems.push("Display and iterator disagree".into());
+                        }
+                        if cow != unq {
+                            problems.push(format!("to_cow gives {:?} but character-by-character unquoting gives {:?}", cow, unq));
+                        }
+                        a_out.push(format!(
+                            "A{}:{}={}:{}~{}~{}~{}",
+                            off(input, k),
+                            hex(k.as_bytes()),
+                            off(input, raw),
+                            hex(raw.as_bytes()),
+                            hex(unq.as_bytes()),
+                            hex(cow.as_bytes()),
+                            v.is_quoted() as u8
+                        ));
+                        pl.attrs.push((k.to_string(), unq));
+                    }
+                    out.push(format!("L{}:{}[{}]", off(input, target), hex(target.as_bytes()), a_out.join(",")));
+                    links.push(pl);
+                }
+            }
+        }
+        (out.join(" ; "), links, problems, saw_err)
+    });
+    match r {
+        None => {
+            if oracle {
+                cx.oracle_fail("C17", line, "link-format parsing panicked");
+            }
+            None
+        }
+        Some((s, links, problems, saw_err)) => {
+            if oracle {
+                for p in problems {
+                    cx.oracle_fail("C17", line, &p);
+                }
+            }
+            Some((s, links, saw_err))
+        }
+    }
+}
+
+fn case_parse(cx: &mut Ctx, input: &str) {
+    let line = format!("LF parse {}", hex(input.as_bytes()));
+    match parse_all(cx, &line, input, true) {
+        None => cx.case(&line, "panic"),
+        Some((s, links, _)) => {
+            cx.case(&line, &s);
+            if !links.is_empty() {
+                cx.nontrivial(&line);
+            }
+            cx.stat(match links.len() {
+                0 => "parse_links_0",
+                1 => "parse_links_1",
+                _ => "parse_links_2plus",
+            });
+        }
+    }
+}
+
+fn case_cow(cx: &mut Ctx, s: &str) {
+    let line = format!("LF cow {}", hex(s.as_bytes()));
+    let r = guarded(|| {
+        let u = Unquote::new(s);
+        let a = u.to_string();
+        let b = u.to_cow().to_string();
+        let c: String = u.clone().collect();
+        (a, b, c, u.is_quoted())
+    });
+    match r {
+        None => {
+            cx.case(&line, "panic");
+            cx.oracle_fail("C17", &line, "unquoting panicked");
+        }
+        Some((a, b, c, q)) => {
+            cx.case(&line, &format!("{} {} {}", hex(a.as_bytes()), hex(b.as_bytes()), q as u8));
+            if a != b || a != c {
+                cx.oracle_fail("C17", &line, &format!("to_cow gives {:?} but character-by-character unquoting gives {:?}", b, a));
+            }
+            if q {
+                cx.nontrivial(&line);
+            }
+        }
+    }
+}
+
+fn render(a: &AttrSpec) -> (String, String) {
+    match a {
+        AttrSpec::Plain(k, v) | AttrSpec::Quoted(k, v) => (k.clone(), v.clone()),
+        AttrSpec::U32(k, n) => (k.clone(), n.to_string()),
+        AttrSpec::U16(k, n) => (k.clone(), n.to_string()),
+    }
+}
+
+fn doc_wf(d: &Doc) -> bool {
+    d.iter().all(|(t, attrs)| {
+        !t.contains('>')
+            && attrs.iter().all(|a| {
+                let (k, _) = render(a);
+                !k.is_empty() && !k.chars().any(|c| c == ';' || c == ',' || c == '=' || c == '"' || c.is_whitespace())
+            })
+    })
+}
+
+fn case_write(cx: &mut Ctx, d: &Doc, nl: bool) -> usize {
+    let line = format!("LF write {} {}", nl as u8, doc_token(d));
+    let r = guarded(|| {
+        let mut sink = FaultSink::new(None, false);
+        let ok = write_doc(d, nl, &mut sink);
+        (ok, sink.calls, sink.buf)
+    });
+    match r {
+        None => {
+            cx.case(&line, "panic");
+            0
+        }
+        Some((ok, calls, buf)) => {
+            cx.case(&line, &format!("{} {} {}", if ok { "ok" } else { "err" }, calls, hex(buf.as_bytes())));
+            cx.nontrivial(&line);
+            if !ok {
+                cx.oracle_fail("C18", &line, "writer reports an error although the sink never failed");
+            }
+            // C16: parse back
+            if doc_wf(d) {
+                let line2 = format!("LF rt {} {}", nl as u8, doc_token(d));
+                match parse_all(cx, &line2, &buf, false) {
+                    None => {
+                        cx.case(&line2, "panic");
+                        cx.oracle_fail("C16", &line2, "parsing the writer's output panicked");
+                    }
+                    Some((s, links, saw_err)) => {
+                        cx.case(&line2, &s);
+                        let same = !saw_err
+                            && links.len() == d.len()
+                            && links.iter().zip(d.iter()).all(|(pl, (t, attrs))| {
+                                pl.target == *t
+                                    && pl.attrs.len() == attrs.len()
+                                    && pl.attrs.iter().zip(attrs.iter()).all(|((k, v), a)| {
+                                        let (wk, wv) = render(a);
+                                        *k == wk && *v == wv
+                                    })
+                            });
+                        if !same {
+                            cx.oracle_fail("C16", &line2, &format!("parsing the written document {:?} does not give back its links/keys/values", buf));
+                        }
+                    }
+                }
+            }
+            calls
+        }
+    }
+}
+
+fn case_writef(cx: &mut Ctx, d: &Doc, nl: bool, k: usize, persist: bool, full: &str) {
+    let line = format!("LF writef {} {} {} {}", nl as u8, k, if persist { "persist" } else { "once" }, doc_token(d));
+    let r = guarded(|| {
+        let mut sink = FaultSink::new(Some(k), persist);
+        let ok = write_doc(d, nl, &mut sink);
+        (ok, sink.calls, sink.buf, sink.wrote_after_failure)
+    });
+    match r {
+        None => {
+            cx.case(&line, "panic");
+            cx.oracle_fail("C18", &line, "writer panicked on a failing sink");
+        }
+        Some((ok, calls, buf, after)) => {
+            cx.case(&line, &format!("{} {} {}", if ok { "ok" } else { "err" }, calls, hex(buf.as_bytes())));
+            cx.nontrivial(&line);
+            if ok {
+                cx.oracle_fail("C18", &line, &format!("sink call {} failed but the writer finally reports success", k));
+            }
+            if after {
+                cx.oracle_fail("C18", &line, &format!("text reached the sink after the failed call {}", k));
+            }
+            if !full.starts_with(&buf) {
+                cx.oracle_fail("C18", &line, "sink content is not a prefix of the fault-free output");
+            }
+        }
+    }
+}
+
+fn all_strings(alpha: &[char], maxlen: usize, f: &mut dyn FnMut(&str)) {
+    fn rec(alpha: &[char], cur: &mut String, left: usize, f: &mut dyn FnMut(&str)) {
+        f(cur);
+        if left == 0 {
+            return;
+        }
+        for a in alpha {
+            cur.push(*a);
+            rec(alpha, cur, left - 1, f);
+            cur.pop();
+        }
+    }
+    rec(alpha, &mut String::new(), maxlen, f);
+}
+
+fn random_value(rng: &mut Rng, maxlen: u64) -> String {
+    let n = rng.below(maxlen + 1);
+    let alpha = ['<', '>', ';', ',', '"', '\\', '=', ' ', '\n', 'a', 'Z', '9', '\u{e9}', '\u{20ac}', '\u{1f601}', '\t', '\r', '/', '\u{a0}'];
+    (0..n).map(|_| *rng.pick(&alpha)).collect()
+}
+
+fn random_doc(rng: &mut Rng) -> Doc {
+    let nl = rng.below(5) as usize;
+    let keys = ["rt", "if", "sz", "title", "ct", "obs", "k\u{e9}", "x-y", "a1"];
+    (0..nl)
+        .map(|_| {
+            let t: String = {
+                let n = rng.below(8);
+                let alpha = ['/', 'a', 'b', '<', ';', ',', '"', ' ', '\u{e9}', '=', '\\'];
+                (0..n).map(|_| *rng.pick(&alpha)).collect()
+            };
+            let na = rng.below(5) as usize;
+            let attrs = (0..na)
+                .map(|_| {
+                    let k = rng.pick(&keys).to_string();
+                    match rng.below(6) {
+                        0 | 1 => AttrSpec::Plain(k, random_value(rng, 8)),
+                        2 | 3 => AttrSpec::Quoted(k, random_value(rng, 8)),
+                        4 => AttrSpec::U32(k, *rng.pick(&[0u32, 1, 9, 10, 40, 65535, 65536, u32::MAX])),
+                        _ => AttrSpec::U16(k, *rng.pick(&[0u16, 7, 255, 256, u16::MAX])),
+                    }
+                })
+                .collect();
+            (t, attrs)
+        })
+        .collect()
+}
+
+pub fn run(cx: &mut Ctx) {
+    let thorough = cx.tier_thorough;
+    let mut rng = Rng(cx.seed ^ 0x4c46);
+
+    // corpus: D11 / D12 witnesses and documents from the RFC
+    for s in ["\"", "\"ab\u{20ac}", "\"abc", "\"ab\"cd", "\"a\\\"b\"", "abc", "", "\"\"", "\"\\", "\"a\\", "\"a\"\"b\""] {
+        case_cow(cx, s);
+    }
+    for s in [
+        "</sensors>;ct=40;title=\"Sensor Index\",</sensors/temp>;rt=\"temperature-c\";if=\"sensor\",</sensors/light>;rt=\"light-lux\";if=\"sensor\"",
+        "<coap://[2001:db8:f1::2]/>;rt=\"core.rd-group\";anchor=\"coap://[2001:db8:f1::2]/\",  \n<a>;x",
+        "</a>;k=\"v,;\\\"\",</b>",
+        "</a>;=;;k = v ;\u{a0}q\u{a0}=\u{2003}w",
+        "<", "<>", "<a", "x", " ", ",", "<a>,", "<a>,,", "<a>;;,<b>",
+    ] {
+        case_parse(cx, s);
+    }
+
+    // ---- C17: exhaustive short strings over the structural alphabet
+    let alpha = ['<', '>', ';', ',', '"', '\\', '=', ' ', 'a', '\u{e9}'];
+    let maxlen = if thorough { 7 } else { 5 };
+    let mut strings: Vec<String> = vec![];
+    all_strings(&alpha, maxlen, &mut |s| strings.push(s.to_string()));
+    for s in &strings {
+        case_parse(cx, s);
+    }
+    // unquoting paths on all strings up to length 5 (6 thorough)
+    let mut vals: Vec<String> = vec![];
+    all_strings(&['"', '\\', 'a', '\u{e9}', ';'], if thorough { 7 } else { 6 }, &mut |s| vals.push(s.to_string()));
+    for s in &vals {
+        case_cow(cx, s);
+    }
+    cx.exhaustive.push(format!("link parser on every string of length <= {} over {{< > ; , \" \\ = space a e-acute}}; both unquoting paths on every string of length <= {} over {{\" \\ a e-acute ;}}", maxlen, if thorough { 7 } else { 6 }));
+    if !thorough {
+        // sample of length 6 and 7
+        for _ in 0..60000 {
+            let n = rng.range(6, 8);
+            let s: String = (0..n).map(|_| *rng.pick(&alpha)).collect();
+            case_parse(cx, &s);
+        }
+    }
+    // random longer strings over a wider alphabet incl. 4-byte code points
+    let nlong = if thorough { 100000 } else { 20000 };
+    for _ in 0..nlong {
+        let s = random_value(&mut rng, 40);
+        case_parse(cx, &s);
+        if rng.chance(1, 4) {
+            case_cow(cx, &s);
+        }
+    }
+
+    // ---- C16 / C18: documents
+    // exhaustive values up to length 4 (3 quick) over the structural alphabet, each through all three writer methods
+    let valpha = ['<', '>', ';', ',', '"', '\\', '=', ' ', '\n', 'a', '\u{e9}', '\u{20ac}'];
+    let vmax = if thorough { 4 } else { 3 };
+    let mut values: Vec<String> = vec![];
+    all_strings(&valpha, vmax, &mut |s| values.push(s.to_string()));
+    for (i, v) in values.iter().enumerate() {
+        let nl = i % 2 == 0;
+        let d: Doc = vec![
+            ("/a".into(), vec![AttrSpec::Plain("k".into(), v.clone()), AttrSpec::Quoted("q".into(), v.clone())]),
+            ("/b".into(), vec![AttrSpec::U32("n".into(), (i as u32).wrapping_mul(2654435761))]),
+        ];
+        case_write(cx, &d, nl);
+    }
+    cx.exhaustive.push(format!("every attribute value of length <= {} over 12 structural / multi-byte characters, written by attr and attr_quoted and parsed back", vmax));
+    let ndocs = if thorough { 20000 } else { 3000 };
+    let mut faults = 0u64;
+    for i in 0..ndocs {
+        let d = random_doc(&mut rng);
+        for nl in [false, true] {
+            let calls = case_write(cx, &d, nl);
+            // every fault position x once/persist (complete enumeration per document)
+            if i % 3 == 0 {
+                let full = {
+                    let mut sink = FaultSink::new(None, false);
+                    let _ = guarded(|| write_doc(&d, nl, &mut sink));
+                    sink.buf
+                };
+                for k in 0..calls {
+                    for persist in [false, true] {
+                        case_writef(cx, &d, nl, k, persist, &full);
+                        faults += 1;
+                    }
+                }
+            }
+        }
+    }
+    cx.stat_n("fault_injections", faults);
+    // directed: 0..4 links x 0..4 attributes
+    for nlinks in 0..=4usize {
+        for nattrs in 0..=4usize {
+            let d: Doc = (0..nlinks)
+                .map(|i| {
+                    (
+                        format!("/r{}", i),
+                        (0..nattrs)
+                            .map(|j| match (i + j) % 4 {
+                                0 => AttrSpec::Plain(format!("k{}", j), "v".into()),
+                                1 => AttrSpec::Quoted(format!("k{}", j), "a\"b\\;,<>".into()),
+                                2 => AttrSpec::U32(format!("k{}", j), 4294967295),
+                                _ => AttrSpec::U16(format!("k{}", j), 40),
+                            })
+                            .collect(),
+                    )
+                })
+                .collect();
+            for nl in [false, true] {
+                let calls = case_write(cx, &d, nl);
+                let full = {
+                    let mut sink = FaultSink::new(None, false);
+                    let _ = guarded(|| write_doc(&d, nl, &mut sink));
+                    sink.buf
+                };
+                for k in 0..calls {
+                    for persist in [false, true] {
+                        case_writef(cx, &d, nl, k, persist, &full);
+                    }
+                }
+            }
+        }
+    }
+    cx.exhaustive.push("for each fault-tested document: every sink-call index x {fail once, fail persistently} x newline on/off".into());
+    // every prefix of well-formed documents through the parser
+    for _ in 0..(if thorough { 2000 } else { 300 }) {
+        let d = random_doc(&mut rng);
+        let mut sink = FaultSink::new(None, false);
+        if guarded(|| write_doc(&d, rng.0 % 2 == 0, &mut sink)).is_some() {
+            let s = sink.buf;
+            let idx: Vec<usize> = s.char_indices().map(|(i, _)| i).chain(std::iter::once(s.len())).collect();
+            for &i in &idx {
+                case_parse(cx, &s[..i]);
+            }
+        }
+    }
+    let _ = unhex("-");
+}
